@@ -479,7 +479,7 @@ func runC18(c *core.Ctx) {
 	if done < maxN {
 		c.Cap(fmt.Sprintf("A1 completed only to %d nodes", done))
 	}
-	c.R.Bound = fmt.Sprintf("A1 value trees <= %d nodes; A2 strings <= 3 runes over %d runes; A3 numbers; A4 24 map keys that read like other tokens", done, len(c18Runes))
+	c.R.Bound = fmt.Sprintf("A1 value trees <= %d nodes; A2 strings <= 3 runes over %d runes; A3 numbers; A4 24 map keys that read like other tokens; A5 every control character on its own", done, len(c18Runes))
 
 	// A2 strings
 	var strs []string
@@ -530,6 +530,25 @@ func runC18(c *core.Ctx) {
 			}
 		}
 		c.Sample(func() interface{} { return map[string]interface{}{"A2_string": fmt.Sprintf("%q", s)} })
+	}
+	// A5 every control character (0x00 - 0x1f, 0x7f) on its own: alone, between letters, as a map key, in a list
+	if c.Shard == 0 {
+		for r := rune(0); r <= 0x7f; r++ {
+			if r >= 0x20 && r != 0x7f {
+				continue
+			}
+			for _, str := range []string{string(r), "a" + string(r) + "b", string(r) + string(r)} {
+				for _, v := range []interface{}{str, []interface{}{str, int64(1)}, map[string]interface{}{"k": str}, map[string]interface{}{str: int64(1)}} {
+					for _, indent := range []int{-1, 0, 2} {
+						for _, sdl := range []bool{true, false} {
+							c.R.Distinct++
+							c.Nontrivial()
+							check18(c, v, indent, true, sdl, "control-character", fmt.Sprintf("U+%04X", r))
+						}
+					}
+				}
+			}
+		}
 	}
 	// A4 map keys that read like something else when written bare: keywords of the value grammar, digits first, number
 	// spellings, names of the document grammar; as the key of a map at the top, inside a list and inside another map
